@@ -61,6 +61,16 @@ func VerifSetSeq(cl *ClientDnsConnection, sc net.Conn, c0, s0 uint16) {
 	u.out.NextSeqNo, cl.in.NextSeqNo = s0, s0
 }
 
+// VerifForgetAcks: the acknowledgement memories of the pair hold numbers of the old range (an idle poll acknowledges NextSeqNo-1);
+// a session that had really reached the new numbers would hold the 128 most recent ones instead.
+func VerifForgetAcks(cl *ClientDnsConnection, sc net.Conn) {
+	u := sc.(*userConnection)
+	cl.out.VerifForgetAcks()
+	cl.in.VerifForgetAcks()
+	u.out.VerifForgetAcks()
+	u.in.VerifForgetAcks()
+}
+
 // VerifClientAvailable reads what is buffered on the client connection without blocking.
 func VerifClientAvailable(cl *ClientDnsConnection, buf []byte) []byte {
 	if !cl.in.HasData() {
